@@ -28,7 +28,7 @@ Members(cs) == IF cs = "latin1" THEN << <<97>>, <<98, 233>>, <<255, 120>> >> ELS
 TMem(k, cs) == Ty(k, 0, FALSE, 0, 0, 0, cs, Members(cs))
 
 IntTypes == {TInt(b, u) : b \in {8, 16, 24, 32, 64}, u \in BOOLEAN}
-DecTypes == {TDec(3, 1), TDec(2, 2), TDec(4, 0), TDec(65, 30)} \cup (IF Big THEN {TDec(5, 2), TDec(1, 0), TDec(30, 30)} ELSE {})
+DecTypes == {TDec(3, 1), TDec(2, 2), TDec(3, 0), TDec(65, 30)} \cup (IF Big THEN {TDec(5, 2), TDec(4, 0), TDec(1, 0), TDec(30, 30)} ELSE {})
 DtTypes == {TKind("date")} \cup {TFsp(k, f) : k \in {"datetime", "timestamp"}, f \in 0..6}
 BitTypes == {TBitN(n) : n \in {1, 7, 8, 9, 12, 16, 33, 63, 64}}
 StrTypes == {TStr(k, 3, cs) : k \in {"char", "varchar"}, cs \in {"utf8mb4", "latin1"}} \cup {TStr("text", 255, "utf8mb4"), TStr("text", 65535, "latin1")}
@@ -147,8 +147,8 @@ ModelOK == phase = 1 => IF ty.k = "num" THEN NumeralOK ELSE TextRoundTrip /\ Tex
 ASSUME TextRow(<<251>>).null /\ BinRow(<<0, 4>>).null /\ ~TextRow(<<0>>).null /\ ~BinRow(<<0, 0, 0>>).null
 
 \* ---- injectivity (cfg MC_Wire_pairs): chosen small types, all pairs of values ---------------------
-PairTypes == {TInt(8, FALSE), TInt(8, TRUE), TDec(2, 1), TKind("year"), TBitN(9), TStr("varchar", 3, "utf8mb4"), TMem("set", "utf8mb4")}
-             \cup (IF Big THEN {TKind("time"), TFsp("datetime", 3)} ELSE {})
+PairTypes == {TInt(8, FALSE), TInt(8, TRUE), TDec(2, 1), TKind("year"), TBitN(7), TStr("varchar", 3, "utf8mb4"), TMem("set", "utf8mb4")}
+             \cup (IF Big THEN {TBitN(9), TKind("time"), TFsp("datetime", 3)} ELSE {})
 PInit == ty \in PairTypes /\ v = 0 /\ w = 0 /\ rcs = "utf8mb4" /\ phase = 0
 PNext == /\ phase = 0
          /\ phase' = 1
@@ -160,13 +160,13 @@ Injective == (phase = 1 /\ ~SameValue(ty, v, w)) =>
              /\ FormatBin(ty, v, rcs) # FormatBin(ty, w, rcs)
 
 \* ---- binding A: expected texts for the engine -----------------------------------------------------
-\* only types whose spelling the protocol fixes; YEAR 0 is left out (MySQL sends 0000, the engine 0: same denotation)
+\* the types whose spelling the protocol fixes (everything but the numeral normal-form pseudo type)
+EmitOK(t, x) == t.k # "num"
 \* a JSON-friendly rendering of the abstract value (sets as sorted sequences)
 ValJ(t, x) == CASE t.k = "set" -> [m |-> [i \in 1..Cardinality(x) |-> CHOOSE k \in x : Cardinality({j \in x : j < k}) = i - 1]]
                 [] t.k = "enum" -> [i |-> x]
                 [] t.k \in CharKinds -> [cp |-> x]
                 [] t.k \in ByteKinds -> [b |-> x]
                 [] OTHER -> x
-EmitOK(t, x) == t.k # "num" /\ ~(t.k = "year" /\ IsZeroD(x.d))
 Emit == IF EmitOK(ty', v') THEN PrintT("CASE " \o ToJson([ty |-> ty', v |-> ValJ(ty', v'), rcs |-> rcs', text |-> Format(ty', v', rcs')])) ELSE TRUE
 =============================================================================
